@@ -55,6 +55,7 @@ use dust_dds::infrastructure::sample_info::{
 use dust_dds::infrastructure::time::{Duration, DurationKind, Time};
 use dust_dds::infrastructure::type_support::DdsType;
 use dust_dds::rtps_messages::overall_structure::{RtpsMessageRead, RtpsSubmessageReadKind};
+use dust_dds::runtime::DdsRuntime as _;
 use std::collections::HashMap;
 use std::io::{BufRead, Write};
 use vh::sim::{Packet, Sim, SimRuntime, SimTransport};
@@ -206,6 +207,59 @@ fn raw_submessages(b: &[u8]) -> Vec<(u8, [u8; 4], [u8; 4], i64, u8, usize, usize
     }
     v
 }
+/// Runtime wrapper: identical to SimRuntime except that the timer notices when the code under
+/// test asks for a ZERO delay over and over at one frozen simulated instant (the worker does this
+/// when `now - last_communication == lease_duration` exactly: time_until_stale_participant is 0 but
+/// remove_stale_participants needs `>`).  With a real clock such a busy loop ends when the clock
+/// ticks; here the clock is moved by 1 ns after 64 consecutive zero delays and the event is counted.
+#[derive(Default)]
+struct SpinState {
+    at: i64,
+    count: u32,
+    spins: u32,
+}
+#[derive(Clone)]
+struct DiscTimer {
+    inner: vh::sim::SimTimer,
+    shared: std::sync::Arc<vh::sim::Shared>,
+    spin: std::sync::Arc<std::sync::Mutex<SpinState>>,
+}
+impl dust_dds::runtime::Timer for DiscTimer {
+    fn delay(&mut self, duration: core::time::Duration) -> impl std::future::Future<Output = ()> + Send {
+        if duration.as_nanos() == 0 {
+            let mut now = self.shared.now_ns.lock().unwrap();
+            let mut st = self.spin.lock().unwrap();
+            if st.at == *now {
+                st.count += 1;
+            } else {
+                st.at = *now;
+                st.count = 1;
+            }
+            if st.count >= 64 {
+                *now += 1;
+                st.spins += 1;
+                st.count = 0;
+            }
+        }
+        self.inner.delay(duration)
+    }
+}
+struct DiscRuntime(std::sync::Arc<vh::sim::Shared>, std::sync::Arc<std::sync::Mutex<SpinState>>);
+impl dust_dds::runtime::DdsRuntime for DiscRuntime {
+    type ClockHandle = vh::sim::SimClock;
+    type TimerHandle = DiscTimer;
+    type SpawnerHandle = vh::sim::SimSpawner;
+    fn timer(&self) -> DiscTimer {
+        DiscTimer { inner: SimRuntime(self.0.clone()).timer(), shared: self.0.clone(), spin: self.1.clone() }
+    }
+    fn clock(&self) -> vh::sim::SimClock {
+        SimRuntime(self.0.clone()).clock()
+    }
+    fn spawner(&self) -> vh::sim::SimSpawner {
+        SimRuntime(self.0.clone()).spawner()
+    }
+}
+
 const SPDP_WRITER: [u8; 4] = [0x00, 0x01, 0x00, 0xc2];
 /// class of a metatraffic datagram: 'S' SPDP data, 'X' SPDP dispose/unregister, 'E' other DATA, 'h' no DATA at all
 fn meta_class(b: &[u8]) -> char {
@@ -262,6 +316,7 @@ struct World {
     mrules: Vec<MetaRule>,
     leases: HashMap<usize, i64>,
     net_log: Vec<String>,
+    spin: std::sync::Arc<std::sync::Mutex<SpinState>>,
     sim: Sim,
     factory: DomainParticipantFactoryAsync<SimTransport>,
     parts: Vec<DomainParticipantAsync>,
@@ -277,10 +332,7 @@ struct World {
 const BUDGET: i64 = 2_000_000_000;
 
 impl World {
-    fn filter(rules: &mut Vec<Rule>, p: &Packet) -> u8 {
-        if p.meta {
-            return 0;
-        }
+    fn user_filter(rules: &mut Vec<Rule>, p: &Packet) -> u8 {
         let subs = summarize(&p.bytes);
         for r in rules.iter_mut() {
             if r.times == 0 {
@@ -299,6 +351,110 @@ impl World {
         0
     }
 
+    /// decision for one datagram (0 deliver, 1 drop, 2 duplicate, 3 hold); may rewrite the lease
+    fn decide(&mut self, p: &mut Packet) -> u8 {
+        if self.muted.contains(&p.from) {
+            return 1;
+        }
+        if !p.meta {
+            return World::user_filter(&mut self.rules, p);
+        }
+        let class = meta_class(&p.bytes);
+        if class == 'S' {
+            if let Some(ns) = self.leases.get(&p.from) {
+                patch_lease(&mut p.bytes, *ns);
+            }
+        }
+        for r in self.mrules.iter_mut() {
+            if r.times == 0 {
+                continue;
+            }
+            let c = match r.class.as_str() {
+                "SPDP" => class == 'S' || class == 'X',
+                "SEDP" => class == 'E' || class == 'h',
+                _ => true,
+            };
+            if c && (r.from < 0 || r.from as usize == p.from) && (r.to < 0 || r.to as usize == p.to) {
+                if r.times > 0 {
+                    r.times -= 1;
+                }
+                return r.action;
+            }
+        }
+        0
+    }
+
+    fn log_delivery(&mut self, p: &Packet) {
+        if !self.sim.shared.endpoints.lock().unwrap()[p.to].alive {
+            return;
+        }
+        if p.meta {
+            let c = meta_class(&p.bytes);
+            if c != 'h' {
+                self.net_log.push(format!("{}{}>{}", c, p.from, p.to));
+            }
+        } else if user_has_data(&p.bytes) {
+            self.net_log.push(format!("U{}>{}", p.from, p.to));
+        }
+    }
+
+    /// own pump (the library pump cannot rewrite datagrams): FIFO over the not-held packets
+    fn pump(&mut self, max: usize) -> usize {
+        let mut n = 0;
+        self.sim.settle();
+        loop {
+            let next = {
+                let mut q = self.sim.shared.inflight.lock().unwrap();
+                match q.iter().position(|p| !p.held) {
+                    Some(i) => Some(q.remove(i)),
+                    None => None,
+                }
+            };
+            let Some(mut p) = next else { break };
+            match self.decide(&mut p) {
+                1 => {}
+                2 => {
+                    self.log_delivery(&p);
+                    self.sim.deliver_packet(&p);
+                    self.log_delivery(&p);
+                    self.sim.deliver_packet(&p);
+                }
+                3 => {
+                    p.held = true;
+                    self.sim.shared.inflight.lock().unwrap().push(p);
+                }
+                _ => {
+                    self.log_delivery(&p);
+                    self.sim.deliver_packet(&p);
+                }
+            }
+            n += 1;
+            if n >= max {
+                break;
+            }
+        }
+        n
+    }
+
+    fn reader_name(&self, h: &[u8; 16]) -> String {
+        for (i, r) in self.readers.iter().enumerate() {
+            if <[u8; 16]>::from(r.get_instance_handle()) == *h {
+                return format!("r{}", i);
+            }
+        }
+        for (i, w) in self.writers.iter().enumerate() {
+            if <[u8; 16]>::from(w.get_instance_handle()) == *h {
+                return format!("w{}", i);
+            }
+        }
+        for (i, p) in self.parts.iter().enumerate() {
+            if <[u8; 16]>::from(p.get_instance_handle()) == *h {
+                return format!("p{}", i);
+            }
+        }
+        format!("x{}", vh::util::to_hex(&h[8..16]))
+    }
+
     fn op(&mut self, op: &str) -> String {
         let t: Vec<&str> = op.split_whitespace().collect();
         if t.is_empty() {
@@ -306,6 +462,9 @@ impl World {
         }
         let n = |i: usize| -> i64 { t.get(i).and_then(|x| x.parse::<i64>().ok()).unwrap_or(0) };
         let u = |i: usize| -> usize { n(i) as usize };
+        if t[0].starts_with('#') {
+            return "#".into();
+        }
         match t[0] {
             "cfg" => {
                 let m = kv(&t[1..]);
@@ -396,6 +555,8 @@ impl World {
                 q.lifespan.duration = dk(g("ls", -1));
                 q.ownership.kind = if g("own", 0) == 1 { OwnershipQosPolicyKind::Exclusive } else { OwnershipQosPolicyKind::Shared };
                 q.ownership_strength.value = g("str", 0) as i32;
+                q.latency_budget.duration = dk(g("lb", 0));
+                if m.contains_key("ud") { q.user_data.value = vec![g("ud", 0) as u8]; }
                 let pb = &self.pubs[u(1)];
                 let tp = &self.topics[u(2)];
                 let r = self.sim.run(pb.create_datawriter::<KeyedData>(tp, QosKind::Specific(q), None::<()>, &[]), BUDGET);
@@ -422,6 +583,8 @@ impl World {
                 q.deadline.period = dk(g("dl", -1));
                 q.ownership.kind = if g("own", 0) == 1 { OwnershipQosPolicyKind::Exclusive } else { OwnershipQosPolicyKind::Shared };
                 q.time_based_filter.minimum_separation = dk(g("sep", 0));
+                q.latency_budget.duration = dk(g("lb", 0));
+                if m.contains_key("ud") { q.user_data.value = vec![g("ud", 0) as u8]; }
                 q.destination_order.kind = if g("ord", 0) == 1 { DestinationOrderQosPolicyKind::BySourceTimestamp } else { DestinationOrderQosPolicyKind::ByReceptionTimestamp };
                 let sb = &self.subs[u(1)];
                 let tp = &self.topics[u(2)];
@@ -490,10 +653,163 @@ impl World {
             }
             "net" => {
                 let max = if t.len() > 1 { u(1) } else { 100_000 };
-                let mut rules = std::mem::take(&mut self.rules);
-                let k = self.sim.pump(max, &mut |p| World::filter(&mut rules, p));
-                self.rules = rules;
-                format!("net {}", k)
+                self.net_log.clear();
+                let k = self.pump(max);
+                let _ = k;
+                let mut s = String::from("net");
+                for e in self.net_log.iter() {
+                    s += " ";
+                    s += e;
+                }
+                s
+            }
+            "mfault" => {
+                let action = match t[1] {
+                    "drop" => 1,
+                    "dup" => 2,
+                    _ => 3,
+                };
+                self.mrules.push(MetaRule { action, from: n(2), to: n(3), class: t[4].to_string(), times: if t.len() > 5 { n(5) } else { 1 } });
+                "mf".into()
+            }
+            "mute" => {
+                let p = u(1);
+                self.muted.retain(|x| *x != p);
+                if n(2) != 0 {
+                    self.muted.push(p);
+                }
+                "mute".into()
+            }
+            "lease" => {
+                self.leases.insert(u(1), n(2));
+                "lease".into()
+            }
+            "jump" => {
+                let now = self.sim.now();
+                *self.sim.shared.now_ns.lock().unwrap() = now.saturating_add(n(1));
+                let before = self.spin.lock().unwrap().spins;
+                self.sim.settle();
+                format!("jump {}", self.spin.lock().unwrap().spins - before)
+            }
+            "now" => format!("now {}", self.sim.now()),
+            "qR" => {
+                let m = kv(&t[2..]);
+                let rd = &self.readers[u(1)];
+                let r = self.sim.run(rd.get_qos(), BUDGET);
+                let Ok(Ok(mut q)) = r else { return "qR GETFAIL".into() };
+                if let Some(v) = m.get("dl") {
+                    q.deadline.period = dk(*v);
+                }
+                if let Some(v) = m.get("lb") {
+                    q.latency_budget.duration = dk(*v);
+                }
+                if let Some(v) = m.get("ud") {
+                    q.user_data.value = vec![*v as u8];
+                }
+                let r = self.sim.run(rd.set_qos(QosKind::Specific(q)), BUDGET);
+                self.sim.settle();
+                match r { Ok(x) => format!("qR {}", rc(&x)), Err(_) => "qR STUCK".into() }
+            }
+            "qW" => {
+                let m = kv(&t[2..]);
+                let w = &self.writers[u(1)];
+                let r = self.sim.run(w.get_qos(), BUDGET);
+                let Ok(Ok(mut q)) = r else { return "qW GETFAIL".into() };
+                if let Some(v) = m.get("dl") {
+                    q.deadline.period = dk(*v);
+                }
+                if let Some(v) = m.get("lb") {
+                    q.latency_budget.duration = dk(*v);
+                }
+                if let Some(v) = m.get("ud") {
+                    q.user_data.value = vec![*v as u8];
+                }
+                let r = self.sim.run(w.set_qos(QosKind::Specific(q)), BUDGET);
+                self.sim.settle();
+                match r { Ok(x) => format!("qW {}", rc(&x)), Err(_) => "qW STUCK".into() }
+            }
+            "ms" => {
+                let w = &self.writers[u(1)];
+                match self.sim.run(w.get_matched_subscriptions(), BUDGET) {
+                    Ok(Ok(l)) => {
+                        let mut s = String::from("ms");
+                        for h in l {
+                            s += " ";
+                            s += &self.reader_name(&<[u8; 16]>::from(h));
+                        }
+                        s
+                    }
+                    Ok(Err(e)) => format!("ms E{}", err_code(&e)),
+                    Err(_) => "ms STUCK".into(),
+                }
+            }
+            "mp" => {
+                let rd = &self.readers[u(1)];
+                match self.sim.run(rd.get_matched_publications(), BUDGET) {
+                    Ok(Ok(l)) => {
+                        let mut s = String::from("mp");
+                        for h in l {
+                            s += " ";
+                            s += &self.reader_name(&<[u8; 16]>::from(h));
+                        }
+                        s
+                    }
+                    Ok(Err(e)) => format!("mp E{}", err_code(&e)),
+                    Err(_) => "mp STUCK".into(),
+                }
+            }
+            "dp" => {
+                let p = &self.parts[u(1)];
+                match self.sim.run(p.get_discovered_participants(), BUDGET) {
+                    Ok(Ok(l)) => {
+                        let mut s = String::from("dp");
+                        for h in l {
+                            s += " ";
+                            s += &self.reader_name(&<[u8; 16]>::from(h));
+                        }
+                        s
+                    }
+                    Ok(Err(e)) => format!("dp E{}", err_code(&e)),
+                    Err(_) => "dp STUCK".into(),
+                }
+            }
+            "ign" => {
+                let p = &self.parts[u(1)];
+                let h = self.parts[u(2)].get_instance_handle();
+                let r = self.sim.run(p.ignore_participant(h), BUDGET);
+                self.sim.settle();
+                match r { Ok(x) => format!("ign {}", rc(&x)), Err(_) => "ign STUCK".into() }
+            }
+            "dst" => {
+                // destinations of the DATA / HEARTBEAT / GAP submessages of writer w in the user datagrams
+                // sent since the last dst/sent: sorted, distinct "<kind><participant>:<reader>"
+                let wh = <[u8; 16]>::from(self.writers[u(1)].get_instance_handle());
+                let went = [wh[12], wh[13], wh[14], wh[15]];
+                let log = self.sim.shared.sent_log.lock().unwrap();
+                let mut set: Vec<String> = vec![];
+                let parts: Vec<[u8; 16]> = self.parts.iter().map(|p| <[u8; 16]>::from(p.get_instance_handle())).collect();
+                for (from, to, meta, bytes) in log[self.sent_mark..].iter() {
+                    if *meta || parts[*from][0..12] != wh[0..12] {
+                        continue;
+                    }
+                    for (id, r, w, _sn, _fl, _, _) in raw_submessages(bytes) {
+                        if w != went {
+                            continue;
+                        }
+                        let k = match id { 0x15 | 0x16 => "D", 0x07 => "H", 0x08 => "G", _ => continue };
+                        let mut h = [0u8; 16];
+                        h[0..12].copy_from_slice(&parts[*to][0..12]);
+                        h[12..16].copy_from_slice(&r);
+                        let name = if r == [0, 0, 0, 0] { format!("p{}", to) } else { self.reader_name(&h) };
+                        let e = format!("{}{}", k, name);
+                        if !set.contains(&e) {
+                            set.push(e);
+                        }
+                    }
+                }
+                set.sort();
+                self.sent_mark = log.len();
+                format!("dst {}", set.join(" "))
             }
             "fault" => {
                 let action = match t[1] {
@@ -625,8 +941,9 @@ impl World {
 
 fn run_scenario(line: &str) -> String {
     let sim = Sim::new(1344);
+    let spin = std::sync::Arc::new(std::sync::Mutex::new(SpinState::default()));
     let factory = DomainParticipantFactoryAsync::new(
-        SimRuntime(sim.shared.clone()),
+        DiscRuntime(sim.shared.clone(), spin.clone()),
         [1, 2, 3, 4],
         [5, 6, 7, 8],
         SimTransport(sim.shared.clone()),
@@ -647,6 +964,7 @@ fn run_scenario(line: &str) -> String {
         mrules: vec![],
         leases: HashMap::new(),
         net_log: vec![],
+        spin,
     };
     let mut out = vec![];
     for op in line.split(';') {
